@@ -143,3 +143,7 @@ package pypi
 // ---- termination (C06): the only recursive function of the repository; a part of a comma-separated list has no comma
 //@ func parseSpecifier
 //@   decreases strings.Contains(specifier, ",") ? 1 : 0
+
+// ---- the registered name (the VERS evaluator and the CLI select behaviour by it)
+//@ func (*Ecosystem).Name
+//@   ensures result == "pypi"   [C04 C15 C17]
